@@ -13,8 +13,11 @@ CLAIM = {
           "alone (invariant over all interleavings; no bound on threads or length). The side condition is evaluated on the footprint extracted from "
           "the current sources: every function of decoder, encoder, proto, profile/{factory,mesgdef,filedef,typedef,basetype}, kit/*, opener satisfies "
           "it except the documented set-up functions (factory.RegisterMesg, typedef.FileRegister, typedef.MesgNumRegister: excluded from the operation "
-          "set) and the known finding options_factory_write (every generated ToMesg stores options.Factory through the caller's *Options; "
-          "C15_options_refuted carries the extracted witness and a racy two-thread execution). NOT proved and said so: the extraction is syntactic "
+          "set). A function that returns a package-level struct by reference (its address or the pointer held in it, exported fields) counts as an "
+          "unguarded store to it: the caller's 'own' value would be shared. The finding options_factory_write (every generated ToMesg stored "
+          "options.Factory through the caller's *Options) is repaired in /repo (fix: commit, see KNOWN_FINDINGS.json); C15_options_refuted is stated "
+          "for both cases -- the extracted witness with a racy two-thread execution if the store returns, no such offender now. "
+          "NOT proved and said so: the extraction is syntactic "
           "(a store through an alias it cannot see, or through an object two callers share although the property calls them distinct, is only caught "
           "dynamically); the Go memory model, scheduler and sync.Pool reuse policy are not formalised; the proof is about footprints, not about the "
           "values the operations compute. The dynamic part is testing: go build -race, GORACE=halt_on_error=0, every race report is parsed and either "
